@@ -70,7 +70,13 @@ func (s *TFIDFSearcher) buildIndex() {
 	// Step 2: Build vocabulary index
 	s.vocabulary = make(map[string]int)
 	vocabIndex := 0
-	for word, docCount := range wordCounts {
+	sortedWords := make([]string, 0, len(wordCounts))
+	for word := range wordCounts {
+		sortedWords = append(sortedWords, word)
+	}
+	sort.Strings(sortedWords)
+	for _, word := range sortedWords {
+		docCount := wordCounts[word]
 		// Include unique terms (docCount >= 1) as they are highly discriminating
 		// Upper bound at 80% to exclude only very common terms
 		maxDocs := len(s.commands) * 8 / 10
@@ -107,7 +113,8 @@ func (s *TFIDFSearcher) buildIndex() {
 		s.commandTF[i] = make(map[int]float64)
 		var norm float64
 
-		for termIdx, count := range termCounts {
+		for _, termIdx := range sortedKeys(termCounts) {
+			count := termCounts[termIdx]
 			tf := float64(count) / float64(len(words))
 			tfidf := tf * s.idf[termIdx]
 			s.commandTF[i][termIdx] = tfidf
@@ -164,7 +171,8 @@ func (s *TFIDFSearcher) Search(query string, limit int) []TFIDFResult {
 
 	// Calculate query TF-IDF
 	var queryNorm float64
-	for termIdx, count := range queryTermCounts {
+	for _, termIdx := range sortedKeys(queryTermCounts) {
+		count := queryTermCounts[termIdx]
 		tf := float64(count) / float64(len(queryTokens))
 		tfidf := tf * s.idf[termIdx]
 		queryVector[termIdx] = tfidf
@@ -191,7 +199,7 @@ func (s *TFIDFSearcher) Search(query string, limit int) []TFIDFResult {
 	}
 
 	// Sort by similarity (descending)
-	sort.Slice(results, func(i, j int) bool {
+	sort.SliceStable(results, func(i, j int) bool {
 		return results[i].Similarity > results[j].Similarity
 	})
 
@@ -211,7 +219,8 @@ func (s *TFIDFSearcher) cosineSimilarity(queryVector map[int]float64, queryNorm 
 	}
 
 	var dotProduct float64
-	for termIdx, queryTFIDF := range queryVector {
+	for _, termIdx := range sortedKeys(queryVector) {
+		queryTFIDF := queryVector[termIdx]
 		if docTFIDF, exists := docVector[termIdx]; exists {
 			dotProduct += queryTFIDF * docTFIDF
 		}
@@ -236,4 +245,13 @@ func (s *TFIDFSearcher) getAverageTermsPerCommand() float64 {
 		totalTerms += len(termMap)
 	}
 	return float64(totalTerms) / float64(len(s.commandTF))
+}
+
+func sortedKeys[V any](m map[int]V) []int {
+	keys := make([]int, 0, len(m))
+	for k := range m {
+		keys = append(keys, k)
+	}
+	sort.Ints(keys)
+	return keys
 }
